@@ -117,6 +117,11 @@ class Check:
         lines = []
         for v in self.violations:
             k = (self.pid, v["rule"], v["key"])
+            # the thorough tier re-evaluates the same source under the other feature configurations and prefixes the site
+            # key with the configuration: it is the same construct (file, function, path) and the same finding
+            for cfg_ in ("std:", "dfm:"):
+                if v["key"].startswith(cfg_) and (self.pid, v["rule"], v["key"][len(cfg_):]) in kf:
+                    k = (self.pid, v["rule"], v["key"][len(cfg_):])
             if k in kf:
                 lines.append("KNOWN-FINDING: property=%s rule=%s site=%s %s" % (self.pid, v["rule"], v["key"], kf[k].get("what", "")))
             else:
